@@ -333,6 +333,11 @@ func (x *bsExec) doNew(op bsOp, renew bool) {
 	}
 	var s *level.BitStorage
 	p, _ := catch(func() { s = level.NewBitStorage(B, N, data) })
+	// the longs handed to the constructor are the caller's: it goes on using its slice (here: overwrites it). The
+	// storage encodes what the longs held when it was built; nothing the caller does to them afterwards may show.
+	for i := range data {
+		data[i] = ^data[i] ^ 0x5a5a5a5a5a5a5a5a
+	}
 	m := map[string]any{"k": "new", "b": B, "n": N, "given": given, "init": init, "refused": p, "rawlen": -1, "len": -1, "nz": []bsCell{}}
 	if !p {
 		sn := bsSnapshot(s, N)
